@@ -80,6 +80,14 @@ def generated_items(seed, tier, bias, scale=1.0):
             for _ in range(rng.randint(2, 6)):
                 e = f"({e} {rng.choice(gen.BINOPS)} {rng.choice([r, r, 'RtV', '3'])})"
             items.append(dict(name=f"reuse{i}", text=f"{{ int32_t q = {r}; RddV = {e} + q + q; if ({r} > q) {{ ReV = q + {r}; }} }}"))
+    # registered routines whose bodies need the packet / instruction handles only through member access (slot cancel, PC alias, new-value reads)
+    items.append(dict(name="subhandles0", text="{ sr_cancel(bundle, RsV); RdV = sr_pc(bundle, RtV) + sr_npc(bundle); }", subs=[
+        ("sr_cancel", "void", ["HexInsnPktBundle *bundle", "uint32_t val"], "{ if (val == 0) { STORE_SLOT_CANCELLED(pkt, 1); } }"),
+        ("sr_pc", "uint32_t", ["HexInsnPktBundle *bundle", "uint32_t val"], "{ return HEX_REG_ALIAS_PC + val; }"),
+        ("sr_npc", "uint32_t", ["HexInsnPktBundle *bundle"], "{ return get_npc(pkt) + 4; }")]))
+    items.append(dict(name="subhandles1", text="{ RdV = sr_usr(bundle) + sr_lr(bundle, RsV); }", subs=[
+        ("sr_usr", "uint32_t", ["HexInsnPktBundle *bundle"], "{ return get_usr_field(bundle, HEX_REG_FIELD_USR_OVF) + HEX_REG_ALIAS_USR; }"),
+        ("sr_lr", "uint32_t", ["HexInsnPktBundle *bundle", "uint32_t v"], "{ HEX_REG_ALIAS_LR = v; return HEX_REG_ALIAS_LR_NEW + P0_NEW; }")]))
     # truth values (comparison / logical results) on BOTH sides of every binary operator
     for op in ("==", "!=", "<", ">", "<=", ">=", "+", "-", "*", "&", "|", "^", "<<", ">>", "&&", "||"):
         items.append(dict(name=f"boolbool;{op}", text=f"{{ RdV = (RsV < 0) {op} (RtV < 0); ReV = (RsV && RtV) {op} (RuV || RtV); RxV = (!RsV) {op} (RtV == RuV); }}"))
